@@ -11,7 +11,9 @@ import (
 	"verif/internal/c06"
 	"verif/internal/c07"
 	"verif/internal/c08"
+	"verif/internal/c09"
 	"verif/internal/c11"
+	"verif/internal/c15"
 	"verif/internal/c19"
 )
 
@@ -23,12 +25,18 @@ func init() {
 	monitors["C06"] = c06.Run
 	monitors["C07"] = c07.Run
 	monitors["C08"] = c08.Run
+	monitors["C09"] = c09.Run
 	monitors["C11"] = c11.Run
+	monitors["C15"] = c15.Run
 	monitors["C19"] = c19.Run
 }
 
 // workerMain dispatches crash-isolated child workers (C13, C14, C15).
 func workerMain(args []string) {
-	fmt.Fprintln(os.Stderr, "no worker kinds registered yet:", args)
+	if len(args) > 0 && args[0] == "c15" {
+		c15.Worker(args[1:])
+		return
+	}
+	fmt.Fprintln(os.Stderr, "unknown worker kind:", args)
 	os.Exit(2)
 }
